@@ -540,6 +540,32 @@ def generate(rng, tier, index):
             lg["handlers"].append(gen_handler(rng, k, p_bad))
             k += 1
         loggers.insert(rng.randint(0, len(loggers)), lg)
+    # the same format text in two handler sections that differ in
+    # arbitrary-fields (validation must not be remembered per text)
+    allh = [h for lg in loggers for h in lg["handlers"]]
+    if len(allh) >= 2 and rng.random() < 0.2:
+        a, b = rng.sample(range(len(allh)), 2)
+        a, b = min(a, b), max(a, b)
+        src, dst = allh[a], allh[b]
+        if rng.random() < 0.7:
+            src["style"] = rng.choice(["classic", "format", "template"])
+            src["format"] = [{"t": "field", "name": "zzfield", "conv": "s",
+                              "width": "", "fvariant": 0, "braced": True},
+                             {"t": "lit", "s": " "},
+                             {"t": "field", "name": "message", "conv": "s",
+                              "width": "", "fvariant": 0, "braced": True}]
+        dst["style"], dst["format"] = src.get("style"), src.get("format")
+        flip = rng.random() < 0.5
+        src["arbitrary"] = "true" if flip else "false"
+        dst["arbitrary"] = "false" if flip else "true"
+    # two logger sections naming the same logger: the later factory call
+    # re-applies level / propagate and adds its handlers to the same object
+    named = [lg for lg in loggers if lg["kind"] == "logger"]
+    if len(named) >= 2 and rng.random() < 0.2:
+        named[-1]["name"] = named[0]["name"]
+        if rng.random() < 0.6:
+            named[0]["propagate"] = rng.choice(BOOL_FALSE)
+            named[-1]["propagate"] = rng.choice(BOOL_TRUE + [None])
     nl = len(loggers)
     history = []
     for k_op in range(rng.randint(1, 6)):
@@ -828,6 +854,16 @@ def _execute(plan, out, scratch, w, clock, recs):
     created = [False] * len(factories)
     called = False
     dropped = set()
+    # per logger OBJECT (several sections may name the same logger): which
+    # (section, handler) pairs are attached, in order, and which section's
+    # factory ran last (its level / propagate are in force)
+    keys = [lg.get("name") if lg["kind"] == "logger" else "$root"
+            for lg in plan["loggers"]]
+    attached = {k: [] for k in keys}
+    owner = {k: None for k in keys}
+    preattached = set()
+    if len(set(keys)) < len(keys):
+        probe("two-sections-one-logger")
 
     def check_dropped(step, opname):
         """After a collection nothing but the application's own references
@@ -897,34 +933,48 @@ def _execute(plan, out, scratch, w, clock, recs):
         want_logger = logging.getLogger(lg.get("name")) \
             if lg["kind"] == "logger" else logging.getLogger()
         name = lg.get("name") or "eventlog"
+        key = keys[i]
         if logger is not want_logger:
             violation("logger", "identity",
                       "factory of %s returned %r" % (name, logger), step)
             return logger
-        if logger.level != m["level"]:
+        if first and i not in preattached:
+            attached[key].extend((i, j) for j in range(len(m["handlers"])))
+            owner[key] = i
+        n_before = ([k for k, (a, _b) in enumerate(attached[key])
+                     if a == i] or [len(attached[key])])[0]
+        om = models[owner[key]]
+        olg = plan["loggers"][owner[key]]
+        if logger.level != om["level"]:
             violation("logger", "level",
                       "%s: level %r, configured %r -> %r"
-                      % (name, logger.level, lg.get("level"), m["level"]),
+                      % (name, logger.level, olg.get("level"), om["level"]),
                       step)
-        if lg["kind"] == "logger" and logger.propagate != m["propagate"]:
+        if lg["kind"] == "logger" and logger.propagate != om["propagate"]:
             violation("logger", "propagate",
-                      "%s: propagate %r, configured %r"
-                      % (name, logger.propagate, lg.get("propagate")), step)
-        hs = [x for x in logger.handlers
-              if not isinstance(x, logging.NullHandler)]
-        kinds = [_describe(x) for x in hs]
-        want_kinds = [hm["kind"] for hm in m["handlers"]]
-        ok_kinds = len(kinds) == len(want_kinds) and all(
+                      "%s: propagate %r, configured %r (section %d, whose "
+                      "factory ran last for this logger)"
+                      % (name, logger.propagate, olg.get("propagate"),
+                         owner[key]), step)
+        hs_all = [x for x in logger.handlers
+                  if not isinstance(x, logging.NullHandler)]
+        kinds_all = [_describe(x) for x in hs_all]
+        want_all = [models[a]["handlers"][b] for (a, b) in attached[key]]
+        ok_kinds = len(kinds_all) == len(want_all) and all(
             hm["verdict"] == "unspec" or k == hm["kind"]
-            for k, hm in zip(kinds, m["handlers"]))
+            for k, hm in zip(kinds_all, want_all))
         if not ok_kinds:
-            violation("handlers", "classes" if len(kinds) == len(want_kinds)
+            violation("handlers", "classes" if len(kinds_all) == len(want_all)
                       else "count",
                       "%s: handlers %r, configured %r (%s call)"
-                      % (name, kinds, want_kinds,
+                      % (name, kinds_all, [hm["kind"] for hm in want_all],
                          "first" if first else "repeated"), step)
             return logger
-        if not m["handlers"] and first:
+        # the handlers this factory call added
+        hs = hs_all[n_before:n_before + len(m["handlers"])] if first else []
+        kinds = kinds_all[n_before:n_before + len(m["handlers"])] \
+            if first else []
+        if not m["handlers"] and first and len(set(keys)) == len(keys):
             if [type(x) for x in logger.handlers] != [loghandler.NullHandler]:
                 violation("handlers", "placeholder",
                           "%s: no handler sections but handlers %r"
@@ -1012,7 +1062,7 @@ def _execute(plan, out, scratch, w, clock, recs):
                                                  hp.get("style")), step)
                 probe("record-rendered:" + (hp.get("style") or "classic"))
             x = None
-        hs = None
+        hs = hs_all = None
         # (c) once
         again = f()
         if again is not logger:
@@ -1021,16 +1071,21 @@ def _execute(plan, out, scratch, w, clock, recs):
                       % name, step)
         n2 = [h2 for h2 in logger.handlers
               if not isinstance(h2, logging.NullHandler)]
-        if len(n2) != len(m["handlers"]):
+        if len(n2) != len(attached[key]):
             violation("once", "handlers-added",
                       "%s: %d handlers after a repeated factory call, "
-                      "configured %d" % (name, len(n2), len(m["handlers"])),
+                      "configured %d" % (name, len(n2), len(attached[key])),
                       step)
         n2 = again = None
         return logger
 
     if configure:
-        # configureLoggers has already called every factory
+        # configureLoggers has already called every factory, in order
+        for i in range(len(factories)):
+            attached[keys[i]].extend(
+                (i, j) for j in range(len(models[i]["handlers"])))
+            owner[keys[i]] = i
+            preattached.add(i)
         for i in range(len(factories)):
             ensure_created(i, None, "call")
     check_registry(None, "load")
@@ -1089,6 +1144,7 @@ def _execute(plan, out, scratch, w, clock, recs):
             factories[i] = None
             if created[i]:
                 dropped.add(i)
+                attached[keys[i]] = []
             dead = [r for r in recs if r.li == i and r.ref() is None]
             if dead:
                 probe("handler-finalised-by-drop", len(dead))
